@@ -577,6 +577,13 @@ type Schedule struct {
 	Corpus   bool
 }
 
+// Hangs counts the ops that hit the watchdog; after MaxHangs of them no further case is run (each
+// costs OpTimeout, and the failing histories are already recorded).
+var (
+	Hangs    int
+	MaxHangs = 3
+)
+
 type caseResult struct {
 	finalDump, finalPend string
 	lastObs              string
@@ -585,15 +592,31 @@ type caseResult struct {
 // RunCase plays one schedule: the ops go to the run (for the model) and to the real index.
 // obsEvery adds the C06 observations after every arrival and checks live == reload.
 func RunCase(r *hk.Run, s *Set, sc *Schedule, obsEvery bool) caseResult {
+	if Hangs >= MaxHangs {
+		return caseResult{"hang", "hang", "hang"}
+	}
 	r.Case(s.Name + " " + sc.Label)
 	ex := NewExecObj()
+	var res caseResult
+	hung := false
 	op := func(line string) string {
+		if hung {
+			return "hang" // nothing is executed (nor recorded) after a hang
+		}
 		out := ex.Do(strings.Fields(line))
 		r.Op(line, out)
+		if out == "hang" {
+			hung = true
+			Hangs++
+			w := strings.Fields(line)[0]
+			r.Fail("c05-op-hangs:"+w, fmt.Sprintf("op %q did not return within %v: the index never quiesces or is deadlocked", line, OpTimeout),
+				"an answer", "hang", r.CaseOps())
+			res.finalDump, res.finalPend, res.lastObs = "hang", "hang", "hang"
+		}
 		return out
 	}
 	for _, sp := range s.Specs {
-		if out := op(sp.DefLine()); out != "ok" {
+		if out := op(sp.DefLine()); out != "ok" && out != "hang" {
 			r.Fail("c05-def-not-built", "def line not accepted by the interpreter: "+out, "ok", out, r.CaseOps())
 		}
 	}
@@ -603,13 +626,15 @@ func RunCase(r *hk.Run, s *Set, sc *Schedule, obsEvery bool) caseResult {
 	}
 	op("open " + sc.KV + " " + c)
 	delivered := map[int]bool{}
-	var res caseResult
 	observe := func(when string) {
-		if !obsEvery {
+		if !obsEvery || hung {
 			return
 		}
 		a, b := op("obs"), op("obsr")
 		r.Hit("c06:observations")
+		if hung {
+			return
+		}
 		if a != b {
 			r.Fail(classifyObsDiff(a, b), "live index+corpus answers differ from a fresh index.New+KeepInMemory over the same rows "+when,
 				b, a, r.CaseOps())
@@ -618,7 +643,13 @@ func RunCase(r *hk.Run, s *Set, sc *Schedule, obsEvery bool) caseResult {
 	}
 	waited := map[string]bool{}
 	check := func(when string) {
+		if hung {
+			return
+		}
 		d, p := op("dump"), op("pend")
+		if hung {
+			return
+		}
 		for _, row := range strings.Split(d, ";") {
 			switch {
 			case strings.HasPrefix(row, "missing|"):
@@ -655,7 +686,7 @@ func RunCase(r *hk.Run, s *Set, sc *Schedule, obsEvery bool) caseResult {
 				delivered[id] = true
 			}
 		}
-		if out := op("par " + strings.Join(gs, "/")); out != "ok" {
+		if out := op("par " + strings.Join(gs, "/")); out != "ok" && out != "hang" {
 			r.Fail("c05-receive-error", "concurrent delivery reported an error", "ok", out, r.CaseOps())
 		}
 		r.Hit("sched:par")
@@ -671,7 +702,7 @@ func RunCase(r *hk.Run, s *Set, sc *Schedule, obsEvery bool) caseResult {
 			if !sc.SrcFirst {
 				op(fmt.Sprintf("src %d", id))
 			}
-			if out := op(fmt.Sprintf("recv %d", id)); out != "ok" {
+			if out := op(fmt.Sprintf("recv %d", id)); out != "ok" && out != "hang" {
 				r.Fail("c05-receive-error", fmt.Sprintf("ReceiveBlob of b%d reported an error", id), "ok", out, r.CaseOps())
 			}
 			delivered[id] = true
@@ -690,7 +721,7 @@ func RunCase(r *hk.Run, s *Set, sc *Schedule, obsEvery bool) caseResult {
 				op("restart")
 				after := op("pend")
 				r.Hit("sched:restart")
-				if before != after {
+				if before != after && !hung {
 					r.Fail("c05-restart-forgets-pending", fmt.Sprintf("needs/neededBy after a restart at prefix %d differ from before", i+1), before, after, r.CaseOps())
 				}
 				observe(fmt.Sprintf("after the restart at prefix %d", i+1))
@@ -704,7 +735,7 @@ func RunCase(r *hk.Run, s *Set, sc *Schedule, obsEvery bool) caseResult {
 		if len(s.Stuck(delivered)) > 0 {
 			want = "needed"
 		}
-		if out != want {
+		if out != want && !hung {
 			r.Fail("c05-reindex-status", "Reindex status", want, out, r.CaseOps())
 		}
 		observe("after Reindex")
@@ -753,6 +784,9 @@ func Explore(r *hk.Run, s *Set, obs bool, maxPerm int, extra int) {
 	ref := RunCase(r, s, &Schedule{Label: "in-order", Order: s.Deliver, Restart: -1, Steps: true, KV: "mem", Corpus: corpus}, obs)
 	r.Distinct(s.Name + "|" + ref.finalDump)
 	compare := func(label string, got caseResult) {
+		if got.finalDump == "hang" || ref.finalDump == "hang" {
+			return // reported as c05-op-hangs
+		}
 		if got.finalDump != ref.finalDump {
 			r.Fail("c05-rows-depend-on-schedule", "final rows of schedule "+label+" differ from the in-order delivery of the same blobs",
 				ref.finalDump, got.finalDump, r.CaseOps())
@@ -856,11 +890,24 @@ func Explore(r *hk.Run, s *Set, obs bool, maxPerm int, extra int) {
 
 // RunCaseReindexOnly: the blobs are only put into the source; Reindex does all the indexing.
 func RunCaseReindexOnly(r *hk.Run, s *Set, sc *Schedule, obs bool) caseResult {
+	if Hangs >= MaxHangs {
+		return caseResult{"hang", "hang", "hang"}
+	}
 	r.Case(s.Name + " " + sc.Label)
 	ex := NewExecObj()
+	hung := false
 	op := func(line string) string {
+		if hung {
+			return "hang"
+		}
 		out := ex.Do(strings.Fields(line))
 		r.Op(line, out)
+		if out == "hang" {
+			hung = true
+			Hangs++
+			r.Fail("c05-op-hangs:"+strings.Fields(line)[0], fmt.Sprintf("op %q did not return within %v", line, OpTimeout),
+				"an answer", "hang", r.CaseOps())
+		}
 		return out
 	}
 	for _, sp := range s.Specs {
@@ -881,18 +928,21 @@ func RunCaseReindexOnly(r *hk.Run, s *Set, sc *Schedule, obs bool) caseResult {
 	if len(s.Stuck(delivered)) > 0 {
 		want = "needed"
 	}
-	if out != want {
+	if out != want && !hung {
 		r.Fail("c05-reindex-status", "Reindex status", want, out, r.CaseOps())
 	}
 	var res caseResult
 	if obs {
 		a, b := op("obs"), op("obsr")
-		if a != b {
+		if a != b && !hung {
 			r.Fail(classifyObsDiff(a, b), "live answers differ from reload after Reindex", b, a, r.CaseOps())
 		}
 		res.lastObs = a
 	}
 	res.finalDump, res.finalPend = op("dump"), op("pend")
+	if hung {
+		return caseResult{"hang", "hang", "hang"}
+	}
 	if msg := s.checkPending(res.finalDump, res.finalPend, delivered); msg != "" {
 		r.Fail("c05-pending-not-remembered", msg+" after Reindex", "", res.finalDump, r.CaseOps())
 	}
